@@ -80,23 +80,9 @@ def norm(r, okeys):
     return ("rows", tuple(r["cols"]) if rows else (), tuple(sorted(rows, key=lambda x: tuple(U.key_nullfirst(v) for v in x))), seq)
 
 
-def run(tier, seed):
-    lays = layouts(tier)
-    chk = core.Check("C05", tier, "model_checking",
-                     f"all statement histories of length 1..{depth(tier)} over {list(OPS)} x table kinds {list(KINDS)}, each followed by "
-                     f"{len(QUERIES)} queries (pk range scans, joins on pk, group by, order by); executed in lock-step on the memory engine and on "
-                     f"{len(lays)} disk layouts; a case = (kind, history, statement index, layout); non-trivial = history contains a DML statement", seed)
-    cs = list(cases(tier))
-    scripts = []
-    for c in cs:
-        st = steps_of(c["kind"], c["history"])
-        scripts.append({"id": 0, "engine": "mem", "steps": st})
-        for l in lays:
-            scripts.append({"id": 0, "engine": "disk", "opts": l, "steps": st})
-    res = runner.run_many("sql", scripts, timeout=120, progress=5000)
-    per = 1 + len(lays)
-    states, trans = set(), 0
-    for ci, c in enumerate(cs):
+def judge_batch(chk, batch, res, lays, per, states):
+    trans = 0
+    for ci, c in enumerate(batch):
         rs = res[ci * per:(ci + 1) * per]
         mem = rs[0]
         nh = len(c["history"])
@@ -132,7 +118,32 @@ def run(tier, seed):
                     else:
                         sig = "order-differs"
                     chk.fail(cid, sig, cc, {"mem": mr[si], "disk": dr[si]})
-    chk.extra.update(states=len(states), transitions=trans, traces_validated_against_impl=len(scripts),
+    return trans
+
+
+def run(tier, seed):
+    lays = layouts(tier)
+    chk = core.Check("C05", tier, "model_checking",
+                     f"all statement histories of length 1..{depth(tier)} over {list(OPS)} x table kinds {list(KINDS)}, each followed by "
+                     f"{len(QUERIES)} queries (pk range scans, joins on pk, group by, order by); executed in lock-step on the memory engine and on "
+                     f"{len(lays)} disk layouts; a case = (kind, history, statement index, layout); non-trivial = history contains a DML statement", seed)
+    cs = list(cases(tier))
+    per = 1 + len(lays)
+    states, trans = set(), 0
+    nscripts = 0
+    BATCH = 1500
+    for b0 in range(0, len(cs), BATCH):
+        batch = cs[b0:b0 + BATCH]
+        scripts = []
+        for c in batch:
+            st = steps_of(c["kind"], c["history"])
+            scripts.append({"id": 0, "engine": "mem", "steps": st})
+            for l in lays:
+                scripts.append({"id": 0, "engine": "disk", "opts": l, "steps": st})
+        res = runner.run_many("sql", scripts, timeout=120)
+        nscripts += len(scripts)
+        trans += judge_batch(chk, batch, res, lays, per, states)
+    chk.extra.update(states=len(states), transitions=trans, traces_validated_against_impl=nscripts,
                      histories=len(cs), layouts=lays)
     chk.assumptions += ["single session; compaction forced through the real compactor with a paused clock (no-op on the memory engine)",
                         "error classes compared at the level parse/bind/execute/storage/panic, not message text"]
